@@ -56,6 +56,7 @@ func c11GenCase() *rapid.Generator[c11Case] {
 		}
 
 		var known []c11Key // every edge key linked so far (to aim unlinks / re-links at real edges)
+		invOf := map[c11Key]string{} // forward key -> the inverse relation its link named (an unlink may name it too)
 		relOf := func(label string) string {
 			if rapid.IntRange(0, 9).Draw(t, label+"-main") < 6 {
 				return rels[0]
@@ -67,9 +68,10 @@ func c11GenCase() *rapid.Generator[c11Case] {
 			if rapid.IntRange(0, 9).Draw(t, "w2") == 7 {
 				op.W = 2
 			}
-			if rapid.IntRange(0, 15).Draw(t, "hasinv") == 11 {
+			if rapid.IntRange(0, 7).Draw(t, "hasinv") == 5 {
 				op.Inv = rapid.SampledFrom(rels).Draw(t, "inv")
 				known = append(known, c11Key{d, s, op.Inv})
+				invOf[c11Key{s, d, rel}] = op.Inv
 			}
 			known = append(known, c11Key{s, d, rel})
 			c.Ops = append(c.Ops, op)
@@ -143,6 +145,9 @@ func c11GenCase() *rapid.Generator[c11Case] {
 				}
 				if rapid.IntRange(0, 15).Draw(t, "uinv") == 11 {
 					op.Inv = rapid.SampledFrom(rels).Draw(t, "inv")
+				}
+				if inv, ok := invOf[c11Key{op.Src, op.Dst, op.Rel}]; ok && rapid.Bool().Draw(t, "uinv-same") {
+					op.Inv = inv // the pair is taken down the way it was put up: forward edge and its named inverse
 				}
 				c.Ops = append(c.Ops, op)
 				if rapid.IntRange(0, 5).Draw(t, "gvacuum") == 0 {
@@ -241,7 +246,7 @@ func c11GenCase() *rapid.Generator[c11Case] {
 			}
 			c.Queries = append(c.Queries, q)
 		}
-		c.Tail = rapid.SampledFrom([]string{"", "", "", "restart", "rewrite", "rewrite+restart", "rewrite+restart", "snapshot+restart"}).Draw(t, "tail")
+		c.Tail = rapid.SampledFrom([]string{"", "", "", "restart", "restart", "rewrite", "rewrite+restart", "rewrite+restart", "snapshot+restart"}).Draw(t, "tail")
 		return c
 	})
 }
